@@ -570,18 +570,42 @@ def _run_ledger_stmt(conn, text):
         return ['exception', impl.exc_class(e), str(e)[:120]]
 
 
-def run_ledger_history(h):
-    """Statements with and without OPEN/CLOSE/CLEAR, BALANCES, JOURNAL ... in sequence on ONE Beancount connection; every result
-    must equal the result of the same statement on a fresh connection over the same ledger."""
+def _fresh_stmt(i):
+    """One statement on a fresh connection in a FRESH PROCESS (nothing executed before in it)."""
+    import os
+    path = _ledger_path()
+    try:
+        return _run_ledger_stmt(impl.beanquery.connect('beancount:' + path), LEDGER_STATEMENTS[i])
+    finally:
+        os.unlink(path)
+
+
+def _history_got(h):
     import os
     path = _ledger_path()
     try:
         conn = impl.beanquery.connect('beancount:' + path)
-        got = [_run_ledger_stmt(conn, LEDGER_STATEMENTS[i]) for i in h]
-        want = [_run_ledger_stmt(impl.beanquery.connect('beancount:' + path), LEDGER_STATEMENTS[i]) for i in h]
+        return [_run_ledger_stmt(conn, LEDGER_STATEMENTS[i]) for i in h]
     finally:
         os.unlink(path)
-    return got, want
+
+
+def fresh_process_map(fn, items):
+    """Each item in its own freshly forked process (maxtasksperchild=1): process-wide caches filled by one task cannot
+    leak into another task nor into the oracle."""
+    import multiprocessing as mp
+    ctx = mp.get_context('fork')
+    with ctx.Pool(core.NCPU, maxtasksperchild=1) as pool:
+        return pool.map(fn, list(items), 1)
+
+
+def run_ledger_history(h, want_table=None):
+    """Statements with and without OPEN/CLOSE/CLEAR, BALANCES, JOURNAL, regex functions ... in sequence on ONE Beancount
+    connection; every result must equal the result of the same statement executed alone in a fresh process."""
+    if want_table is None:
+        want_table = dict(zip(range(len(LEDGER_STATEMENTS)), fresh_process_map(_fresh_stmt, range(len(LEDGER_STATEMENTS)))))
+    got = _history_got(h)
+    return got, [want_table[i] for i in h]
 
 
 def run(tier, rng):
@@ -623,7 +647,9 @@ def run(tier, rng):
     lh = [gen_ledger_history(rng) for _ in range(60 if tier == 'quick' else 600)]
     nst = len(LEDGER_STATEMENTS)
     lh = [[2, 1], [4, 3], [10, 9], [6, 5], [0, 2, 0], [nst - 3, nst - 4], [nst - 4, nst - 3, nst - 4], [nst - 1, nst - 2], [nst - 2, nst - 1]] + lh
-    for h, (got, want) in zip(lh, core.pmap(run_ledger_history, lh)):
+    want_table = dict(zip(range(len(LEDGER_STATEMENTS)), fresh_process_map(_fresh_stmt, range(len(LEDGER_STATEMENTS)))))
+    for h, got in zip(lh, fresh_process_map(_history_got, lh)):
+        want = [want_table[i] for i in h]
         if got != want and len(seen) < 6:
             k = next(i for i, (g, w) in enumerate(zip(got, want)) if g != w)
             sig = 'ledger-history:' + ' ; '.join(LEDGER_STATEMENTS[i] for i in h[:k + 1])
